@@ -37,9 +37,22 @@ def Mp.comp (M : Mp) (i : Nat) : E := M.F.getD i zero
 
 def lc (j : Nat) : Coord := Coord.ofIdx true j
 
-/-- the elementary functions whose derivative is in the table (`PD.fnDeriv`) -/
+/-- the elementary functions of coordinate expressions the model differentiates (`PD.fnDeriv`;
+    `log` is left out: its derivative needs a non-vanishing argument) -/
 def knownFnB (f : String) : Bool :=
-  f == "sin" || f == "cos" || f == "exp" || f == "log" || f == "sinh" || f == "cosh" || f == "tan"
+  f == "sin" || f == "cos" || f == "exp" || f == "sinh" || f == "cosh" || f == "tan"
+
+/-- a rational, non-integer literal (the exponent of a square root) -/
+def isRatLit : E → Bool
+  | num _ q => q != 1
+  | _ => false
+
+/-- derivative of a power; `b^0` is the constant 1; a rational literal exponent uses
+    `r·b'·b⁻¹·b^r` (no logarithm) -/
+def ldiffPow (b e db de : E) : E :=
+  if intLit e = some 0 then zero
+  else if isRatLit e then mul [e, db, pow b (num (-1) 1), pow b e]
+  else powRule b e db de
 
 mutual
 /-- does the expression contain a genuine field (a function that is not the mapping)? -/
@@ -77,7 +90,7 @@ def ldiff (m : String) (c : Coord) : E → Except Err E
   | pow b e => do
       let db ← ldiff m c b
       let de ← ldiff m c e
-      .ok (powRule b e db de)
+      .ok (ldiffPow b e db de)
   | fn f a =>
       if hasField m a || !knownFnB f then .error .notImplemented
       else do
@@ -161,6 +174,16 @@ def pbVec (j : Jac) (s : String) (k : Kind) (i : Nat) : E :=
   | .l2 => mul [u i, invDet j]
   | _ => u i
 
+def pick3 (g0 g1 g2 : E) (l : Nat) : E :=
+  match l with
+  | 0 => g0
+  | 1 => g1
+  | _ => g2
+
+/-- component `l` of `LogicalGrad(la)` in dimension `d` (0 beyond the dimension) -/
+def lgrad (m : String) (d : Nat) (la : E) (l : Nat) : Except Err E :=
+  if l < d then ldiff m (lc l) la else .ok zero
+
 mutual
 /-- `LogicalExpr(e, D)` for a terminal expression `e` of the physical domain -/
 def logical (m : String) (j : Jac) (F : Nat → E) : E → Except Err E
@@ -191,11 +214,10 @@ def logical (m : String) (j : Jac) (F : Nat → E) : E → Except Err E
       if c.logical then .ok (pd c a)
       else if c.idx < j.d then do
         let la ← logical m j F a
-        let g0 ← ldiff m (lc 0) la
-        let g1 ← if 1 < j.d then ldiff m (lc 1) la else .ok zero
-        let g2 ← if 2 < j.d then ldiff m (lc 2) la else .ok zero
-        let g (l : Nat) : E := match l with | 0 => g0 | 1 => g1 | _ => g2
-        .ok (sum3 j.d (fun l => mul [invJ j l c.idx, g l]))
+        let g0 ← lgrad m j.d la 0
+        let g1 ← lgrad m j.d la 1
+        let g2 ← lgrad m j.d la 2
+        .ok (sum3 j.d (fun l => mul [invJ j l c.idx, pick3 g0 g1 g2 l]))
       else .error .indexError
   | _ => .error .notImplemented
 def logicalList (m : String) (j : Jac) (F : Nat → E) : List E → Except Err (List E)
